@@ -4,6 +4,7 @@ import (
 	"fmt"
 	"os"
 	"path/filepath"
+	"runtime/debug"
 	"sync"
 
 	"github.com/99designs/keyring"
@@ -94,6 +95,9 @@ func recoverTo(f func()) (panicked string) {
 	defer func() {
 		if r := recover(); r != nil {
 			panicked = fmt.Sprint(r)
+			if os.Getenv("VERIF_STACK") != "" {
+				fmt.Fprintln(os.Stderr, string(debug.Stack()))
+			}
 		}
 	}()
 	f()
